@@ -251,8 +251,10 @@ func genFsCase(r *Rng, out *outFiles) {
 				}
 			}
 		}
-		if _, e2 := m.GetTemplate("no/such/name"); !errors.Is(e2, html.ErrTplNotFound) {
-			c19 = "lookup of an unregistered name did not fail with ErrTplNotFound"
+		for _, nn := range []string{"no/such/name", "100%.html", "50%off", "%v", "a%sb", "%!d(string=x)", ""} {
+			if _, e2 := m.GetTemplate(nn); !errors.Is(e2, html.ErrTplNotFound) {
+				c19 = fmt.Sprintf("lookup of the unregistered name %q did not fail with ErrTplNotFound: %v", nn, e2)
+			}
 		}
 		if len(m.Files()) > 0 {
 			for f := range m.Files() {
